@@ -55,6 +55,10 @@ type tcase struct {
 	Extra *extraIn `json:"extra,omitempty"`
 	// Op "reuse": the option values were used for another source first
 	Reuse *reuseIn `json:"reuse,omitempty"`
+	// stamp-option shapes: where the explicit stamps come from (stamps.go)
+	Stamps *stampShape `json:"stamps_shape,omitempty"`
+	// Op "after-call": what the caller does once the call has returned (aftercall.go)
+	After *afterIn `json:"after,omitempty"`
 }
 
 const (
@@ -323,16 +327,21 @@ const (
 
 // modelCorrectReq builds the driver request of a correction case.
 func modelCorrectReq(s srcInfo, o optSet, m mergedDef, headStamps [][2]string, today string) string {
-	var ext [][2]string
-	if o.Ext {
-		if k, v := extFor(m); k != "" {
-			ext = append(ext, [2]string{k, v})
-		}
-	}
 	var st [][2]string
 	if o.StampsOpt {
 		for _, p := range m.stamps {
 			st = append(st, [2]string{p, stampVal})
+		}
+	}
+	return modelCorrectReqStamps(s, o, m, st, headStamps, today)
+}
+
+// modelCorrectReqStamps: the same with the explicit stamps written out.
+func modelCorrectReqStamps(s srcInfo, o optSet, m mergedDef, st, headStamps [][2]string, today string) string {
+	var ext [][2]string
+	if o.Ext {
+		if k, v := extFor(m); k != "" {
+			ext = append(ext, [2]string{k, v})
 		}
 	}
 	reason, series := "", ""
@@ -507,7 +516,7 @@ func runLib(c *core.Ctx, t tcase) (libOutcome, srcInfo, mergedDef, [][2]string, 
 	var cerr error
 	site, msg, _ := core.ProtectSite(func() {
 		if t.Op == "correct" {
-			res, cerr = env.Correct(optionFuncs(t.Opts, m)...)
+			res, cerr = env.Correct(caseOptions(t, m)...)
 		} else {
 			res, cerr = env.Replicate()
 		}
@@ -698,6 +707,8 @@ func Run(c *core.Ctx) int {
 		}
 		cases = append(cases, t)
 	}
+	cases = append(cases, stampCases(c, invoices)...)
+	cases = append(cases, afterCases(c, append(append([]source{}, invoices...), shapes...))...)
 	cases = append(cases, reuseCases(c, append(append([]source{}, invoices...), shapes...))...)
 	cases = append(cases, extraCases(c, append(append([]source{}, invoices...), shapes...))...)
 	runCases(c, cases, goblBin, false)
@@ -724,6 +735,10 @@ func runCases(c *core.Ctx, cases []tcase, goblBin string, verbose bool) {
 	for _, t := range cases {
 		if t.Op == "reuse" {
 			runReuse(c, t)
+			continue
+		}
+		if t.Op == "after-call" {
+			runAfter(c, t)
 			continue
 		}
 		if t.Op == "correct-extra" {
@@ -778,7 +793,7 @@ func runCases(c *core.Ctx, cases []tcase, goblBin string, verbose bool) {
 			judgeReplicate(c, t, r.out, r.src, today)
 			continue
 		}
-		reqs = append(reqs, modelCorrectReq(r.src, t.Opts, r.m, r.hs, today))
+		reqs = append(reqs, caseModelReq(t, r.src, r.m, r.hs, today))
 		pends = append(pends, pend{t, r.out, r.src, r.m})
 	}
 	resps, err := c.Model(reqs)
@@ -789,6 +804,10 @@ func runCases(c *core.Ctx, cases []tcase, goblBin string, verbose bool) {
 	for i, p := range pends {
 		model := resps[i]
 		key := fmt.Sprintf("%s|%v|%s|%v|%s", p.src.regime, p.src.addons, p.t.Opts.Type, p.t.Opts, p.out.class)
+		if p.t.Stamps != nil {
+			key += "|" + p.t.Stamps.Label
+			judgeStamps(c, p.t, p.out, p.m)
+		}
 		c.Eval(key, true)
 		c.Count("correct.regime."+orDash(p.src.regime), 1)
 		c.Count("correct.outcome."+strings.SplitN(p.out.class, ":", 2)[0], 1)
